@@ -754,7 +754,8 @@ async fn get_serverids(s: &SharedServerIds) -> ServerIds {
 }
 
 fn to_array(mac: &[u8]) -> Option<[u8; 6]> {
-    mac[0..6].try_into().ok()
+    /* The client hardware address can be shorter than an ethernet address (hlen < 6). */
+    mac.get(0..6)?.try_into().ok()
 }
 
 enum RunError {
